@@ -51,6 +51,7 @@ def run(chk, db):
         'and is evaluated with exact C conversion semantics on every cell of the induced partition, which decides minimality for all values; '
         'payload types per class come from the resolved WriteAs<> template arguments on every path; the prefix byte values are compared '
         'with the table parsed from docs/format.md. Container layer: symbolic paths of every WritePayload instance are compared with the '
-        'documented layout of its type constructor (length field type and expression, element order).')
+        'documented layout of its type constructor (length field type and expression, element order).'
+        " Wrapper kinds are composed of the documented component encodings (CO); every container kind returns its documented prefix (PK); table layout TW/TE with BoundedWriter frames; Size() rules because an entry's declared size is on the wire; constexpr writer byte lanes (L).")
     chk.assumptions = ['LP64 little-endian host: WriteAs copies the native object representation, which is the documented little-endian payload',
                        'unordered_map entries are emitted in the container\'s own iteration order (the property excludes their order)']
